@@ -246,6 +246,9 @@ static void runCase(const std::vector<std::string>& lines) {
                   else { for (float e : p.valuesAsFloat()) s += " " + hexf(e); }
                   fprintf(g_out, "%s\n", s.c_str()));
         }
+        else if (cmd == "P.get") {   // the caller copies a parameter out of an object: Parameter p = c.parameters().group(g).parameter(n)
+            int k = (int)tk.i64(); std::string g = tk.str(); std::string n = tk.str();
+            GUARD(P = O(k).parameters().group(g).parameter(n); fprintf(g_out, "ok\n")); }
         else if (cmd == "P.show") { GUARD(fprintf(g_out, "ok %s\n", paramBody(P).c_str())); }
         else if (cmd == "param") { int k = (int)tk.i64(); std::string g = tk.str(); GUARD(O(k).parameter(g, P); fprintf(g_out, "ok\n")); }
         else if (cmd == "lock") { int k = (int)tk.i64(); std::string g = tk.str(); GUARD(O(k).lockGroup(g); fprintf(g_out, "ok\n")); }
@@ -326,6 +329,31 @@ static void runCase(const std::vector<std::string>& lines) {
                       float v = (cmd == "mk.pts") ? P_.at(c).point(n).x() : S_.at(c).channel(n).data();
                       out += " " + u(i) + ":" + u((size_t)v); }
                 catch (std::invalid_argument&) { out += " x"; }
+            }
+            fprintf(g_out, "%s\n", out.c_str());
+        }
+        // ---- the same containers, with elements renamed IN PLACE between the look-ups (point_nonConst(j).name(...)) (C11) ----
+        else if (cmd == "mk.ptsr" || cmd == "mk.chsr") {
+            size_t nc = tk.u64(); std::vector<Points> P_; std::vector<SubFrame> S_;
+            for (size_t c = 0; c < nc; ++c) {
+                size_t k = tk.u64(); Points pts; SubFrame sf;
+                for (size_t i = 0; i < k; ++i) { std::string n = tk.str(); Point p; p.name(n); p.x((float)i); pts.point(p); Channel ch; ch.name(n); ch.data((float)i); sf.channel(ch); }
+                P_.push_back(pts); S_.push_back(sf);
+            }
+            size_t nq = tk.u64(); std::string out = "ok";
+            for (size_t q = 0; q < nq; ++q) {
+                std::string what = tk.next(); size_t c = tk.u64();
+                if (what == "r") {
+                    size_t j = tk.u64(); std::string n = tk.str();
+                    try { if (cmd == "mk.ptsr") P_.at(c).point_nonConst(j).name(n); else S_.at(c).channel_nonConst(j).name(n); out += " r"; }
+                    catch (std::out_of_range&) { out += " o"; }
+                } else {
+                    std::string n = tk.str();
+                    try { size_t i = (cmd == "mk.ptsr") ? P_.at(c).pointIdx(n) : S_.at(c).channelIdx(n);
+                          float v = (cmd == "mk.ptsr") ? P_.at(c).point(n).x() : S_.at(c).channel(n).data();
+                          out += " " + u(i) + ":" + u((size_t)v); }
+                    catch (std::invalid_argument&) { out += " x"; }
+                }
             }
             fprintf(g_out, "%s\n", out.c_str());
         }
